@@ -7,8 +7,8 @@
 
 namespace c18 {
 
-enum Kind : int { ADD, CONSUME, ATMOST, REWIND, RESET, CLEAR, REPEAT, QUERY, SETBAD, NKINDS };   // SETBAD n: a set-up call with invalid arguments (variant n) on the buffer in use
-static const char *kind_name[] = {"add", "consume", "atmost", "rewind", "reset", "clear", "repeat", "query", "setbad"};
+enum Kind : int { ADD, CONSUME, ATMOST, REWIND, RESET, CLEAR, REPEAT, QUERY, SETBAD, SELFADD, NKINDS };   // SETBAD n: a set-up call with invalid arguments (variant n) on the buffer in use; SELFADD n: add whose source lies inside the buffer itself (n % 2: 0 the unread region's start, 1 the memory's start), n / 2 octets
+static const char *kind_name[] = {"add", "consume", "atmost", "rewind", "reset", "clear", "repeat", "query", "setbad", "selfadd"};
 struct Op { int kind; size_t n; };
 
 struct Model {
@@ -126,6 +126,17 @@ inline std::string step(Impl &im, Model &m, const Op &op, Labels &lab) {
         break;
     }
     case REPEAT: byte_buffer_repeat(&im.b); m.off = 0; break;
+    case SELFADD: {
+        // the octets to append may come from the buffer's own memory (re-appending unread data, copying a header): as long as source and
+        // destination do not overlap this is an ordinary add
+        size_t cnt = op.n / 2, from = (op.n % 2) ? 0 : m.off;
+        if (cnt == 0 || from + cnt > m.used() || cnt > m.avail()) break;     // would overlap the destination or not fit: not generated
+        std::vector<uint8_t> want(m.content.begin() + (long)from, m.content.begin() + (long)(from + cnt));
+        int rc = byte_buffer_add(&im.b, im.mem + from, cnt);
+        if (rc != 0) return tag("refused-although-space");
+        m.content.insert(m.content.end(), want.begin(), want.end());
+        break;
+    }
     case SETBAD: {
         // set-up refuses invalid arguments - also on a buffer that is in use, which then stays what it was
         vp::Block other(m.size + 3);
